@@ -159,7 +159,8 @@ def serializeInfo (i : Info) : List Char :=
 
 /-- characters encoding/json writes and reads verbatim inside a string -/
 def jsonPlain (c : Char) : Bool :=
-  decide (32 ≤ c.toNat) && decide (c.toNat < 127) && c != '"' && c != '\\' && c != '<' && c != '>' && c != '&'
+  decide (32 ≤ c.toNat) && decide (c.toNat < 127) && decide (c.toNat ≠ 34) && decide (c.toNat ≠ 92) &&
+  decide (c.toNat ≠ 60) && decide (c.toNat ≠ 62) && decide (c.toNat ≠ 38)
 
 /-- ranges of the Go field types and no character of the name needing an escape -/
 def Info.wf (i : Info) : Bool :=
@@ -207,7 +208,7 @@ def parseInfo (s : List Char) : Option Info :=
   | some i => if i.wf ∧ serializeInfo i = s then some i else none
 
 /-- core.ValidateSHA256: 64 characters accepted by hex.DecodeString -/
-def validSHA256Hex (s : List Char) : Bool := s.length == 64 && s.all Char.isHexDigit
+def validSHA256Hex (s : List Char) : Bool := s.length == 64 && s.all isHex
 
 inductive DeserResult where
   | noncanon                      -- text outside the canonical form: the model makes no claim
@@ -233,12 +234,21 @@ structure Range where
 /-- int64(x) of a uint64 (datasize.ByteSize) -/
 def toInt64 (x : Nat) : Int := if x % 2^64 < 2^63 then (x % 2^64 : Nat) else (x % 2^64 : Nat) - (2^64 : Int)
 
+/-- sort.Slice(ranges, fileSize <) as an insertion sort (keys are distinct, so every correct sort
+gives the same list) -/
+def insertRange (r : Range) : List Range → List Range
+  | [] => [r]
+  | x :: xs => if r.fileSize ≤ x.fileSize then r :: x :: xs else x :: insertRange r xs
+
+def isort : List Range → List Range
+  | [] => []
+  | r :: rs => insertRange r (isort rs)
+
 /-- newPieceLengthConfig: `none` = "no piece lengths configured".  The argument lists the map's
 entries (distinct keys), in any order. -/
 def mkTable (m : List (Nat × Nat)) : Option (List Range) :=
   if m.isEmpty then none
-  else some ((m.map fun (k, v) => ({ fileSize := toInt64 k, pieceLength := toInt64 v } : Range)).mergeSort
-    (fun a b => decide (a.fileSize ≤ b.fileSize)))
+  else some (isort (m.map fun (k, v) => ({ fileSize := toInt64 k, pieceLength := toInt64 v } : Range)))
 
 def getLoop (size : Int) : List Range → Int → Int
   | [], pl => pl
